@@ -348,6 +348,21 @@ def render_stream(roots, erase=False):
 
 # ------------------------------------------------------------------------------------------ plain value
 
+def plain_resolved(root):
+    """Plain value with yaml aliases replaced by the content of their anchors."""
+    anchors = {n['anchor']: n for _, n in walk(root) if n.get('anchor')}
+
+    def rec(n):
+        if n['t'] == 'alias':
+            return rec(anchors[n['name']])
+        if n['t'] == 'map':
+            return {k: rec(v) for k, v in n['items']}
+        if n['t'] == 'seq':
+            return [rec(v) for v in n['items']]
+        return plain(n)
+    return rec(root)
+
+
 def plain(n):
     t = n['t']
     if t == 'map':
